@@ -62,7 +62,8 @@ structure AdaptState (α : Type) where
 
 def isFixedKey (k : String) : Bool := k == "gamma_dc" || k == "delta_dc" || k == "proposal_normalisation"
 
-/-- `_modify_alpha`: multiply by `ratio`, keep the old value if the new one exceeds the maximum;
+/-- `_modify_alpha`: multiply by `ratio`, keep the old value if the new one exceeds the maximum
+    or is not positive (`not newAlpha > 0`: the product underflowed to 0.0, or is NaN);
     the balancing widths are carried over unchanged -/
 def modifyWidths (maxW : List (String × α)) (ws : List (String × α)) (ratio : α) : List (String × α) :=
   ws.map fun (k, v) =>
@@ -70,8 +71,8 @@ def modifyWidths (maxW : List (String × α)) (ws : List (String × α)) (ratio 
     else
       let nv := v * ratio
       match maxW.lookup k with
-      | some m => if Flt.ltb m nv then (k, v) else (k, nv)
-      | none => (k, nv)
+      | some m => if Flt.ltb m nv || !(Flt.ltb (c 0) nv) then (k, v) else (k, nv)
+      | none => if !(Flt.ltb (c 0) nv) then (k, v) else (k, nv)
 
 /-- `_get_acceptance_rate_modifier` followed by `_modify_alpha` for one learning window with
     acceptance rate `rate` -/
